@@ -360,6 +360,10 @@ func runScenario(f fault) (e *env, trace []string, probeErr string, censusLeft [
 	mu.Lock()
 	probing = true
 	mu.Unlock()
+	if f.Behaviour == "delay" {
+		// let the withheld answer arrive (late) before probing: a late answer must not disturb later calls
+		time.Sleep(lateDelay + time.Second)
+	}
 	closedByScenario := strings.Contains(f.Scenario, "conn-close")
 	if e.hung == nil && !closedByScenario {
 		// the broker is cooperative from here on; later calls must still work (bounded progress: 120 virtual seconds)
